@@ -180,7 +180,8 @@ def show(t, names=None) -> str:
     if k == "sub":
         return f"{show(t[1], names)}[{show(t[2], names)}]"
     if k == "slice":
-        return f"{show(t[1], names) if t[1] != C(None) else ''}:{show(t[2], names) if t[2] != C(None) else ''}"
+        step = f":{show(t[3], names)}" if len(t) > 3 else ""
+        return f"{show(t[1], names) if t[1] != C(None) else ''}:{show(t[2], names) if t[2] != C(None) else ''}{step}"
     if k == "tuple":
         return "(" + ", ".join(show(x, names) for x in t[1]) + ")"
     if k == "list":
@@ -266,6 +267,8 @@ def children(t):
     elif k == "slice":
         yield t[1]
         yield t[2]
+        if len(t) > 3:
+            yield t[3]
     elif k == "phi":
         yield t[3]
     elif k == "iter":
@@ -348,7 +351,7 @@ def subst(t, mapping):
     if k == "sub":
         return ("sub", r(t[1]), r(t[2]))
     if k == "slice":
-        return ("slice", r(t[1]), r(t[2]))
+        return ("slice",) + tuple(r(x) for x in t[1:])
     if k == "phi":
         return ("phi", t[1], t[2], r(t[3])) + tuple(t[4:])
     if k == "iter":
@@ -541,7 +544,7 @@ def ev(t, val: Valuation):
                 return _h("sub", _key(b), _key(i))
         return _h("sub", _key(b), _key(i))
     if k == "slice":
-        return ("slice", _key(ev(t[1], val)), _key(ev(t[2], val)))
+        return ("slice",) + tuple(_key(ev(x, val)) for x in t[1:])
     if k == "iter":
         return _h("iter", _key(ev(t[1], val)), t[2])
     if k == "read":
